@@ -29,6 +29,7 @@ var classRunes = map[string][]rune{
 	"num_cased":   {'ⅰ', 'ⅱ', 'ⅲ'},
 	"us":          {'_'},
 	"delim":       {'-', '.', ' ', '/', '+', '@'},
+	"ws":          {' ', '\t', '\u00a0', '\u2003', '\u2028'},
 	"delim_cased": {'ⓐ', 'ⓑ'},
 	"delim_upper": {'ͅ'},
 }
